@@ -497,3 +497,53 @@ def constant_arithmetic(prog, site):
         return None
     lo = -(1 << bits) if ty.startswith("i") else 0
     return r if lo <= r < (1 << bits) else None
+
+
+def suffix_length_sub(prog, site):
+    """Structural discharge of `x.len() - rest.len()` where `rest` is the remaining input a nom parser of this workspace
+    returned for `x`: a parser returns a suffix of its input, so the difference cannot underflow.  Returns a description or None."""
+    if not site.kind.startswith("assert:overflow:Sub"):
+        return None
+    from .flow import Flow, identity_through
+    from .common import callee_names
+    b = site.body
+    t = b.blocks[site.bb]["t"]
+    ops = t.get("ops", [])
+    if len(ops) != 2:
+        return None
+    fl = Flow(b)
+
+    def len_call(op):
+        l = op_local(op)
+        if l is None:
+            return None
+        leaves, _ = fl.sources([l], through_call=None, follow_mut=False)
+        calls = [x[1] for x in leaves if x[0] == "call"]
+        if len(calls) != 1 or any(x[0] == "const" for x in leaves):
+            return None
+        t2 = b.blocks[calls[0]]["t"]
+        if not any(n.endswith("::len") for n in callee_names(t2)) or not t2["args"]:
+            return None
+        return t2
+    la, lb = len_call(ops[0]), len_call(ops[1])
+    if la is None or lb is None:
+        return None
+    src_a, vis_a = fl.sources([op_local(la["args"][0])], through_call=identity_through, follow_mut=False)
+    src_b, _ = fl.sources([op_local(lb["args"][0])], through_call=identity_through, follow_mut=False)
+    for leaf in src_b:
+        if leaf[0] != "call":
+            continue
+        pc = b.blocks[leaf[1]]["t"]
+        ns = callee_names(pc)
+        if not any(n.startswith("mpd_protocol::parser::") for n in ns):
+            continue
+        for a in pc["args"]:
+            la2 = op_local(a)
+            if la2 is None:
+                continue
+            src_in, vis_in = fl.sources([la2], through_call=identity_through, follow_mut=False)
+            roots_a = {x for x in vis_a if b.locals[x]["name"]} | {x for x in src_a if x[0] == "param"}
+            roots_in = {x for x in vis_in if b.locals[x]["name"]} | {x for x in src_in if x[0] == "param"}
+            if roots_a & roots_in:
+                return "length of the input minus length of the remaining input returned by %s" % ns[-1]
+    return None
